@@ -85,9 +85,17 @@ def stored_patch_variants() -> List['Variant']:
             uf = os.path.join(rd, rid, 'undecided.txt')
             if os.path.exists(uf):
                 und = {ln.split()[0] for ln in open(uf) if ln.strip() and not ln.startswith('#')}
+            # checks whose report on this tree is upheld: the change keeps the property it was written around, but breaks this
+            # other one (a finding about the change, not a false alarm): the check must fire
+            uph = set()
+            hf = os.path.join(rd, rid, 'upheld.txt')
+            if os.path.exists(hf):
+                uph = {ln.split()[0] for ln in open(hf) if ln.strip() and not ln.startswith('#')}
             for i in range(1, 21):
                 pid = 'C%02d' % i
-                if pid in und:
+                if pid in uph:
+                    out.append(PatchVariant(pid, 'upheld: refactoring %s' % rid, pf, 'fire'))
+                elif pid in und:
                     out.append(PatchVariant(pid, 'undecided: refactoring %s' % rid, pf, 'undecided'))
                 else:
                     out.append(PatchVariant(pid, 'silent: refactoring %s' % rid, pf, 'silent'))
